@@ -135,7 +135,12 @@ def setup(rec, tier):
             V = verts(s)
             c, r = ball_of(res)
             P = np.unique(V, axis=0)
-            o = geom.min_enclosing_ball(P) if len(P) <= 11 else geom.min_enclosing_ball_fast(P)
+            key = P.tobytes()
+            if key not in _ball_cache:
+                if len(_ball_cache) > 8:
+                    _ball_cache.clear()
+                _ball_cache[key] = geom.min_enclosing_ball(P) if len(P) <= 11 else geom.min_enclosing_ball_fast(P)
+            o = _ball_cache[key]
             d = np.linalg.norm(V - c, axis=1)
             ok_in = bool(np.all(d <= r * (1 + TOL) + 1e-12))
             ok_min = r <= o[1] * (1 + TOL)
@@ -341,7 +346,8 @@ def _query(rec, s, members, rng, info):
     import random
 
     for m in members:
-        reps = (3 if _TIER["tier"] == "quick" else 10) if m.startswith("minimal_bounding") else 1
+        # miniball's pivoting is randomised (global RNG): its failures on degenerate inputs show for ~1-2% of states
+        reps = (8 if _TIER["tier"] == "quick" else 24) if m.startswith("minimal_bounding") else 1
         for rep in range(reps):
             if reps > 1:
                 sd = int(rng.integers(2 ** 31))
@@ -453,6 +459,7 @@ def _polyhedron_shape(rng):
 
 
 _TIER = {"tier": "quick"}
+_ball_cache = {}
 
 
 def run_case(i, rng, rec, tier, state):
